@@ -2,6 +2,7 @@ package props
 
 import (
 	"fmt"
+	"github.com/cosmos/cosmos-sdk/types/query"
 	"math/big"
 	"sort"
 	"strings"
@@ -452,8 +453,76 @@ func NewRegistryMonitor(e *Env, filter func(rule string) bool) (*RegistryMonitor
 		rm.Wrk.Compare(e, o, viol)
 		rm.Beacon.Compare(e, o, viol)
 		ctx := e.L.QueryCtx()
+		rm.listings(e, ctx, viol)
 		rm.Evals += rm.Wrk.PointQueries(e, ctx, o.WrkParams.MaxStorageLimit, viol)
 		rm.Evals += rm.Beacon.PointQueries(e, ctx, o.BeaconParams.MaxStorageLimit, viol)
 	}
 	return rm, mon
+}
+
+// listings: what the LIST endpoints tell a client about every registration must be what was
+// submitted (id, owner, moniker, name, genesis hash / type) - not only what the point queries and
+// the keeper say. Walked with a small page size so that several pages are decoded.
+func (rm *RegistryMonitor) listings(e *Env, ctx sdk.Context, viol func(rule, sig, msg string)) {
+	g := sdk.WrapSDKContext(ctx)
+	seen := map[uint64]bool{}
+	var key []byte
+	for page := 0; page < 200; page++ {
+		res, err := e.L.App.WrkchainKeeper.WrkChainsFiltered(g, &wrkchaintypes.QueryWrkChainsFilteredRequest{Pagination: &query.PageRequest{Key: key, Limit: 3}})
+		if err != nil {
+			viol("listing-error", "wrk", fmt.Sprintf("WrkChainsFiltered: %v", err))
+			break
+		}
+		for _, w := range res.Wrkchains {
+			en := rm.Wrk.Entries[w.WrkchainId]
+			if en == nil {
+				continue // registration-set covers unknown ids
+			}
+			if seen[w.WrkchainId] {
+				viol("listing-fields", "wrk/duplicate", fmt.Sprintf("WRKChain %d listed twice", w.WrkchainId))
+			}
+			seen[w.WrkchainId] = true
+			if f := w.Moniker + "|" + w.Name + "|" + w.Genesis + "|" + w.Type; f != en.Fields || ownerHex(w.Owner) != en.Owner {
+				viol("listing-fields", "wrk", fmt.Sprintf("the WRKChain listing reports %d as {%s} owned by %s; submitted {%s} by %s", w.WrkchainId, f, ownerHex(w.Owner), en.Fields, en.Owner))
+			}
+		}
+		rm.Evals += len(res.Wrkchains)
+		if res.Pagination == nil || len(res.Pagination.NextKey) == 0 {
+			break
+		}
+		key = res.Pagination.NextKey
+	}
+	if len(seen) != len(rm.Wrk.Entries) {
+		viol("listing-fields", "wrk/missing", fmt.Sprintf("the WRKChain listing reports %d registrations, %d were made", len(seen), len(rm.Wrk.Entries)))
+	}
+	seen = map[uint64]bool{}
+	key = nil
+	for page := 0; page < 200; page++ {
+		res, err := e.L.App.BeaconKeeper.BeaconsFiltered(g, &beacontypes.QueryBeaconsFilteredRequest{Pagination: &query.PageRequest{Key: key, Limit: 3}})
+		if err != nil {
+			viol("listing-error", "beacon", fmt.Sprintf("BeaconsFiltered: %v", err))
+			break
+		}
+		for _, b := range res.Beacons {
+			en := rm.Beacon.Entries[b.BeaconId]
+			if en == nil {
+				continue
+			}
+			if seen[b.BeaconId] {
+				viol("listing-fields", "beacon/duplicate", fmt.Sprintf("BEACON %d listed twice", b.BeaconId))
+			}
+			seen[b.BeaconId] = true
+			if f := b.Moniker + "|" + b.Name; f != en.Fields || ownerHex(b.Owner) != en.Owner {
+				viol("listing-fields", "beacon", fmt.Sprintf("the BEACON listing reports %d as {%s} owned by %s; submitted {%s} by %s", b.BeaconId, f, ownerHex(b.Owner), en.Fields, en.Owner))
+			}
+		}
+		rm.Evals += len(res.Beacons)
+		if res.Pagination == nil || len(res.Pagination.NextKey) == 0 {
+			break
+		}
+		key = res.Pagination.NextKey
+	}
+	if len(seen) != len(rm.Beacon.Entries) {
+		viol("listing-fields", "beacon/missing", fmt.Sprintf("the BEACON listing reports %d registrations, %d were made", len(seen), len(rm.Beacon.Entries)))
+	}
 }
